@@ -261,6 +261,23 @@ func checkC08(c *Ctx) {
 	if f := c.fn("C08.4", "cmd/application", "connManager", "handleNewTCPConn"); f != nil {
 		calls := callsIn(f, shortIs("MarkActive"))
 		r.Check(len(calls) >= 1, "C08.4", "handleNewTCPConn: calls MarkActive", f.Pos(), fnName(f), fmt.Sprintf("%d call(s)", len(calls)), "a matched connection no longer marks its registration used")
+		// ... when the connection is matched, not when it ends: a session can outlive the unused lifetime
+		marks := map[ssa.Instruction]bool{}
+		for _, ci := range calls {
+			if _, isCall := ci.(*ssa.Call); isCall {
+				marks[ci.(ssa.Instruction)] = true
+			}
+		}
+		for _, l := range findDeep(f, func(n string, _ *ssa.CallCommon) bool { return strings.HasSuffix(n, "station/lib.Proxy") }, 2) {
+			site := l.site()
+			skip, w := reach(f, nil, isInstr(site), inSet(marks), nil)
+			if skip {
+				r.Bad("C08.4", "handleNewTCPConn: the relay starts before the registration is marked used", site.Pos(), fnName(f),
+					"Proxy is reachable without a completed MarkActive call (a deferred one runs when the session ends): while its first session is open the registration is still 'unused' and the sweep removes it after 10 minutes although it is carrying a connection", r.blockPath(f, w)...)
+			} else {
+				r.OK("C08.4", "handleNewTCPConn: MarkActive completes before the relay starts", site.Pos(), "must-pass call before Proxy")
+			}
+		}
 	}
 
 	// ---- C08.5 sweeper
